@@ -34,13 +34,12 @@ def _m(text, ref, note, tech):
 
 
 CHECKS = {
-    "C03": _m("Bounded model checking of the real variable store (scope stack with its last-looked-up-slot cache) in lock-step "
-              "with a cache-free reference written from the scoping rules, over every operation sequence of length 2-3 (4 "
-              "thorough); plus the operator precedence table against the specification.",
+    "C03": _m("Bounded model checking of the operator precedence table only: for every pair of binary operators the relative "
+              "precedence equals the Sass specification's classes (= < or < and < ==,!= < relational < +,- < *,/,%).",
               "DESIGN.md section 4, C03",
-              "Only the variable store and the precedence table are decided; control flow, argument binding, mixins and "
-              "operator evaluation are outside. Trusted: Kani/CBMC, the interner model (hook), the 30-line reference.",
-              "bounded model checking (Kani/CBMC) of Scopes/Environment against a reference state machine"),
+              "This decides one small mechanism of the property. The variable store, control flow, argument binding and mixins "
+              "are NOT covered: the scope-stack harness did not finish under CBMC (BTreeMap behind Arc<RefCell>), see DESIGN.md.",
+              "bounded model checking (Kani/CBMC) of BinaryOp::precedence against the specification table"),
     "C07": _m("Bounded model checking with bit-precise doubles: fuzzy equality is reflexive, symmetric, never true beyond 1e-11, "
               "true within 4e-12 of a bucket centre; fuzzy <, ==, > form a trichotomy; fuzzy_as_int is total and exact to the "
               "tolerance; is_zero/positive/negative partition; min/max/clamp are total incl. NaN - for every double in the windows.",
